@@ -1,9 +1,180 @@
-//! C11 sessions (seeded driver). Fill in.
+//! C11 sessions: a random value of one of the eight types (full-size domains, biased to range ends and digit-count
+//! boundaries) is printed with random display options (event Fmt.<Type>: abstract value + options -> characters),
+//! the text is parsed back (Parse.<Type>, chained) and the parsed value printed again with the same options.
+//! Interleaved: Display, option-enum names, year padding, identifiers, month codes, calendars.
 use super::Tracer;
 use crate::gen::*;
+use crate::js::big;
+use crate::ops;
+use crate::ops_parse::chars_tok;
 use crate::rng::Rng;
-use serde_json::json;
+use serde_json::{json, Value};
+
+const CALS: [&str; 6] = ["iso8601", "iso8601", "iso8601", "gregory", "hebrew", "japanese"];
+const NAMED: [&str; 6] = ["UTC", "America/New_York", "Europe/London", "Asia/Kolkata", "Australia/Lord_Howe", "Africa/Monrovia"];
+const ENUMS: [(&str, &[&str]); 9] = [
+    ("Unit", &["Auto", "Nanosecond", "Microsecond", "Millisecond", "Second", "Minute", "Hour", "Day", "Week", "Month", "Year"]),
+    ("RoundingMode", &["Ceil", "Floor", "Expand", "Trunc", "HalfCeil", "HalfFloor", "HalfExpand", "HalfTrunc", "HalfEven"]),
+    ("ArithmeticOverflow", &["Constrain", "Reject"]), ("DurationOverflow", &["Constrain", "Balance"]),
+    ("Disambiguation", &["Compatible", "Earlier", "Later", "Reject"]), ("OffsetDisambiguation", &["Use", "Prefer", "Ignore", "Reject"]),
+    ("DisplayCalendar", &["Auto", "Always", "Never", "Critical"]), ("DisplayOffset", &["Auto", "Never"]), ("DisplayTimeZone", &["Auto", "Never", "Critical"]),
+];
+const NAMES: [&str; 24] = ["auto", "nanosecond", "millisecond", "milliseconds", "millsecond", "hours", "year", "ceil", "halfEven", "halfeven", "HalfEven", "constrain",
+    "balance", "reject", "compatible", "earlier", "use", "prefer", "always", "never", "critical", "", "auto ", "weeks"];
+
+fn sub_ns(r: &mut Rng) -> i64 {
+    match r.range(0, 7) { 0 | 1 => 0, 2 => 1, 3 => 999_999_999, 4 => r.range(0, 999) * 1_000_000, 5 => r.range(0, 999_999) * 1000, _ => r.range(0, 999_999_999) }
+}
+fn time6(r: &mut Rng) -> Value {
+    let x = sub_ns(r);
+    let (h, mi, s) = if r.chance(1, 5) { (23, 59, 59) } else if r.chance(1, 5) { (0, 0, 0) } else { (r.range(0, 23), r.range(0, 59), r.range(0, 59)) };
+    json!({"h": h, "mi": mi, "s": s, "ms": x / 1_000_000, "us": (x / 1000) % 1000, "ns": x % 1000})
+}
+fn year_edge_day(r: &mut Rng) -> i64 {
+    // days around the four-digit / six-digit year boundaries and both range ends
+    match r.range(0, 5) {
+        0 => days_from_civil(9999, 12, 31) + r.range(-400, 400),
+        1 => days_from_civil(0, 1, 1) + r.range(-400, 400),
+        2 => days_from_civil(1000, 1, 1) + r.range(-3, 3),
+        _ => any_day(r),
+    }
+}
+fn prec_opts(r: &mut Rng, a: &mut Value, minute_ok: bool) {
+    match r.range(0, 5) {
+        0 | 1 => {}
+        2 | 3 => a["prec"] = json!(r.range(0, 9)),
+        _ => { let us = ["second", "millisecond", "microsecond", "nanosecond", "minute"]; a["su"] = json!(us[r.range(0, if minute_ok { 4 } else { 3 }) as usize]); }
+    }
+}
+fn cal_opt(r: &mut Rng, a: &mut Value) { if r.chance(1, 2) { a["cd"] = json!(*r.pick(&["auto", "always", "never", "critical"])); } }
+fn merge(mut a: Value, b: Value) -> Value { for (k, v) in b.as_object().unwrap() { a[k] = v.clone(); } a }
+
+fn any_instant(r: &mut Rng) -> i128 {
+    let lim: i128 = 8_640_000_000_000_000_000_000;
+    match r.range(0, 7) {
+        0 => -lim + r.range(0, 1_000_000) as i128,
+        1 => lim - r.range(0, 1_000_000) as i128,
+        2 => r.range(-2_000_000_000, 2_000_000_000) as i128,
+        3 => year_edge_day(r) as i128 * 86_400_000_000_000 + r.range(0, 86_399) as i128 * 1_000_000_000 + sub_ns(r) as i128,
+        4 => -(r.range(0, 4_000_000_000_000_000_000) as i128),
+        _ => r.range128(-lim, lim),
+    }.clamp(-lim, lim)
+}
+fn offset_id(r: &mut Rng) -> String {
+    let (h, m) = match r.range(0, 4) { 0 => (0, 0), 1 => (5, 30), 2 => (12, 45), 3 => (r.range(0, 23), 0), _ => (r.range(0, 23), r.range(0, 59)) };
+    format!("{}{:02}:{:02}", if r.chance(1, 2) { '+' } else { '-' }, h, m)
+}
+fn any_duration(r: &mut Rng) -> Value {
+    let sg: i128 = if r.chance(1, 3) { -1 } else { 1 };
+    let mut f = [0i128; 10];
+    let shape = r.range(0, 7);
+    for (i, x) in f.iter_mut().enumerate() {
+        let on = match shape { 0 => false, 1 => i >= 7, 2 => i == 4 || i >= 7, 3 => i < 4, _ => r.chance(1, 2) };
+        if on { *x = match r.range(0, 5) { 0 => 1, 1 => r.range(0, 1000) as i128, 2 => r.range(0, 100_000) as i128, 3 => 999, _ => r.range(0, 3_000_000) as i128 }; }
+    }
+    if r.chance(1, 12) { f[r.range(3, 9) as usize] = r.range(0, 80_000_000_000) as i128; }
+    if r.chance(1, 25) { f[6] = r.range(9_007_199_254_000_000, 9_007_199_254_740_991) as i128; f[7] = 0; f[8] = 0; f[9] = 0; f[3] = 0; f[4] = 0; f[5] = 0; }
+    dur10(sg * f[0], sg * f[1], sg * f[2], sg * f[3], sg * f[4], sg * f[5], sg * f[6], sg * f[7], sg * f[8], sg * f[9])
+}
+
+/// print -> parse (chained) -> print again
+fn cycle(t: &mut Tracer, ty: &str, args: Value, reparse_shape_ok: bool) {
+    let op = format!("Fmt.{}", ty);
+    let out = t.call(&op, args.clone());
+    if out["kind"] != "ok" { return; }
+    let p = t.call(&format!("Parse.{}", ty), json!({"chars": out["val"], "chain": true}));
+    if p["kind"] == "ok" && reparse_shape_ok {
+        let mut again = args;
+        again["v"] = p["val"].clone();
+        again["again"] = json!(true);
+        t.call(&op, again);
+    }
+}
 
 pub fn drive(t: &mut Tracer, r: &mut Rng, n: usize) {
-    let _ = (t, r, n);
+    while t.n < n {
+        match r.range(0, 11) {
+            0 => {
+                let (y, m, d) = civil(year_edge_day(r));
+                let mut a = json!({"v": {"y": y, "m": m, "d": d, "cal": *r.pick(&CALS)}});
+                if r.chance(1, 6) { a["via"] = json!("display"); } else { cal_opt(r, &mut a); }
+                cycle(t, "PlainDate", a, true);
+            }
+            1 => {
+                let (y, m, d) = civil(year_edge_day(r));
+                let mut a = json!({"v": merge(json!({"y": y, "m": m, "d": d, "cal": *r.pick(&CALS)}), time6(r))});
+                if r.chance(1, 6) { a["via"] = json!("display"); } else { cal_opt(r, &mut a); prec_opts(r, &mut a, true); }
+                cycle(t, "PlainDateTime", a, true);
+            }
+            2 => { let mut a = json!({"v": time6(r)}); prec_opts(r, &mut a, true); cycle(t, "PlainTime", a, true); }
+            3 => {
+                let (y, m, _) = civil(year_edge_day(r).clamp(MIN_DAY + 20, MAX_DAY));
+                let iso = r.chance(5, 6);
+                let mut a = json!({"v": {"y": y, "m": m, "cal": if iso { "iso8601" } else { "gregory" }}});
+                if !iso { a["v"]["rd"] = json!(1); }
+                if r.chance(1, 6) { a["via"] = json!("display"); } else { cal_opt(r, &mut a); }
+                cycle(t, "PlainYearMonth", a, iso);
+                if r.chance(1, 3) { t.call("Fmt.YearPad", json!({"y": y, "m": m})); }
+            }
+            4 => {
+                let m = r.range(1, 12);
+                let d = r.range(1, [31, 29, 31, 30, 31, 30, 31, 31, 30, 31, 30, 31][m as usize - 1]);
+                let iso = r.chance(5, 6);
+                let mut a = json!({"v": {"m": m, "d": d, "cal": if iso { "iso8601" } else { "gregory" }}});
+                if !iso { a["v"]["ry"] = json!(1972); }
+                if r.chance(1, 6) { a["via"] = json!("display"); } else { cal_opt(r, &mut a); }
+                cycle(t, "PlainMonthDay", a, iso);
+            }
+            5 => {
+                let mut a = json!({"v": big(any_instant(r))});
+                prec_opts(r, &mut a, true);
+                if r.chance(1, 3) { a["tz"] = chars_tok(&offset_id(r)); }
+                cycle(t, "Instant", a, true);
+            }
+            6 | 7 => {
+                let mut a = json!({"v": any_duration(r)});
+                if r.chance(1, 6) { a["via"] = json!("display"); } else { prec_opts(r, &mut a, false); }
+                cycle(t, "Duration", a, true);
+            }
+            8 => {
+                // fixed-offset zones (no provider data involved)
+                let mut a = json!({"v": {"ns": big(any_instant(r)), "tz": chars_tok(&offset_id(r)), "cal": *r.pick(&CALS)}});
+                if r.chance(1, 8) { a["via"] = json!("display"); } else {
+                    cal_opt(r, &mut a); prec_opts(r, &mut a, true);
+                    if r.chance(1, 3) { a["od"] = json!("never"); }
+                    if r.chance(1, 3) { a["zd"] = json!(*r.pick(&["never", "critical", "auto"])); }
+                }
+                cycle(t, "ZonedDateTime", a, true);
+            }
+            9 => {
+                // named zones through the bundled provider, years 1800..2037 (what the zone's offset is, is C13/C15's business:
+                // the offset reported by the public getter travels with the event)
+                let ns = r.range(-5_364_662_400, 2_145_916_800) as i128 * 1_000_000_000 + sub_ns(r) as i128;
+                let v = json!({"ns": big(ns), "tz": chars_tok(*r.pick(&NAMED)), "cal": *r.pick(&CALS)});
+                let off = ops::exec("ZonedDateTime.offsetNs", &json!({"v": v}));
+                if off["kind"] == "ok" {
+                    let o = crate::js::unbig(&off["val"]);
+                    if o % 1_000_000_000 == 0 {
+                        let mut a = json!({"v": v, "offs": (o / 1_000_000_000) as i64});
+                        cal_opt(r, &mut a); prec_opts(r, &mut a, true);
+                        if r.chance(1, 4) { a["od"] = json!("never"); }
+                        if r.chance(1, 4) { a["zd"] = json!(*r.pick(&["critical", "auto"])); }
+                        cycle(t, "ZonedDateTime", a, false);
+                    }
+                }
+            }
+            10 => {
+                let (e, vars) = *r.pick(&ENUMS);
+                t.call("Enum.display", json!({"enum": e, "variant": *r.pick(vars)}));
+                t.call("Enum.parse", json!({"enum": e, "chars": chars_tok(*r.pick(&NAMES))}));
+            }
+            _ => match r.range(0, 3) {
+                0 => { t.call("Fmt.TimeZone", json!({"tz": chars_tok(&offset_id(r))})); }
+                1 => { t.call("Fmt.TimeZone", json!({"tz": chars_tok(*r.pick(&NAMED))})); }
+                2 => { t.call("Fmt.MonthCode", json!({"chars": chars_tok(&format!("M{:02}{}", r.range(1, 13), if r.chance(1, 3) { "L" } else { "" }))})); }
+                _ => { t.call("Fmt.Calendar", json!({"chars": chars_tok(*r.pick(&["iso8601", "gregory", "hebrew", "ISO8601", "Japanese", "roc", "islamic-civil", "persian"]))})); }
+            },
+        }
+        t.reset();
+    }
 }
